@@ -261,7 +261,7 @@ def synth_case(isa, m, isa_db, vocab, by, path, ipath, mseed, kseed, R, sample=T
     if flags:
         R.count("flags_on")
     R.count("zero_idiom_active", sum(1 for i in kernel_ast if by[i["form"]]["zero"] and not i["reads"]))
-    R.count("hidden_register_operand_instances", sum(1 for i in kernel_ast if i["form"] in ("hr0a", "hr1a")))
+    R.count("hidden_register_operand_instances", sum(1 for i in kernel_ast if i["form"] in ("hr0a", "hr1a", "hn0a", "hn1a")))
     nt = judge(isa, kernel_ast, forms, dg, mm, flags, R, case, by)
     R.case(digest(text + str(flags)), nontrivial=nt)
     R.count("kind:synth")
